@@ -111,6 +111,7 @@ type Node struct {
 	Stalled    int // remaining steps of stall
 	ClockAhead bool
 	Pol        *policy
+	loadOpts   *ipfslog.LogOptions
 
 	// C05 monitor state (per instance generation)
 	seen     map[string]string
@@ -144,6 +145,8 @@ type World struct {
 	IO           iface.IO
 	Codec        string
 	LinkKeyBytes []byte
+	ShareOpts    bool
+	sharedOpts   *ipfslog.LogOptions
 	Nodes        []*Node
 	Net          []*Msg
 	msgSeq       int
@@ -179,6 +182,31 @@ func defaultIO() *cbor.IOCbor {
 
 func (w *World) logOpts() *ipfslog.LogOptions {
 	return &ipfslog.LogOptions{ID: w.LogID, SortFn: w.sortFn(), IO: w.IO}
+}
+
+// loadOpts: the options value handed to the loaders. In half of the worlds the application keeps
+// one options value and passes it to every load, as one does with a configuration struct.
+func (w *World) loadOpts() *ipfslog.LogOptions {
+	if !w.ShareOpts {
+		return w.logOpts()
+	}
+	if w.sharedOpts == nil {
+		w.sharedOpts = w.logOpts()
+	}
+	w.R.Probe("options-value-reused-across-loads")
+	return w.sharedOpts
+}
+
+// nodeLoadOpts: the same for a replica's own reloads (its options carry its access controller).
+func (w *World) nodeLoadOpts(n *Node) *ipfslog.LogOptions {
+	if !w.ShareOpts {
+		return w.nodeOpts(n)
+	}
+	if n.loadOpts == nil {
+		n.loadOpts = w.nodeOpts(n)
+	}
+	w.R.Probe("options-value-reused-across-loads")
+	return n.loadOpts
 }
 
 // nodeOpts: options for a replica's own log instance (its access controller is a policy the
@@ -223,6 +251,7 @@ func NewWorld(r *Run, p *Profile) *World {
 		w.installCrashMonitor()
 	}
 	w.setupCodec()
+	w.ShareOpts = r.Choose("share-load-options", 2) == 0
 	if w.Codec == "pb" {
 		w.F.crash = false // the legacy codec cannot read back what it writes for v2 entries: in-memory exchange only
 	}
@@ -573,13 +602,13 @@ func (w *World) materialise(m *Msg, rcv *Writer) (*ipfslog.IPFSLog, error) {
 	w.driven(func(ctx context.Context) {
 		switch m.form {
 		case 2:
-			l, err = ipfslog.NewFromMultihash(ctx, w.St, rcv.ID, m.c, w.logOpts(), &ipfslog.FetchOptions{Concurrency: conc})
+			l, err = ipfslog.NewFromMultihash(ctx, w.St, rcv.ID, m.c, w.loadOpts(), &ipfslog.FetchOptions{Concurrency: conc})
 		case 3:
-			l, err = ipfslog.NewFromJSON(ctx, w.St, rcv.ID, m.json, w.logOpts(), &entry.FetchOptions{Concurrency: conc})
+			l, err = ipfslog.NewFromJSON(ctx, w.St, rcv.ID, m.json, w.loadOpts(), &entry.FetchOptions{Concurrency: conc})
 		case 4:
-			l, err = ipfslog.NewFromEntry(ctx, w.St, rcv.ID, append([]iface.IPFSLogEntry(nil), m.heads...), w.logOpts(), &entry.FetchOptions{Concurrency: conc})
+			l, err = ipfslog.NewFromEntry(ctx, w.St, rcv.ID, append([]iface.IPFSLogEntry(nil), m.heads...), w.loadOpts(), &entry.FetchOptions{Concurrency: conc})
 		case 5:
-			l, err = ipfslog.NewFromEntryHash(ctx, w.St, rcv.ID, m.c, w.logOpts(), &ipfslog.FetchOptions{Concurrency: conc})
+			l, err = ipfslog.NewFromEntryHash(ctx, w.St, rcv.ID, m.c, w.loadOpts(), &ipfslog.FetchOptions{Concurrency: conc})
 		}
 	})
 	return l, err
@@ -702,14 +731,14 @@ func (w *World) restart(n *Node) {
 		if n.Durable.kind == 0 {
 			switch {
 			case how == 1 && n.Durable.json != nil && w.Codec != "pb":
-				l, err = ipfslog.NewFromJSON(ctx, w.St, n.W.ID, n.Durable.json, w.nodeOpts(n), &entry.FetchOptions{Concurrency: conc})
+				l, err = ipfslog.NewFromJSON(ctx, w.St, n.W.ID, n.Durable.json, w.nodeLoadOpts(n), &entry.FetchOptions{Concurrency: conc})
 			case how == 2 && len(n.Durable.heads) > 0 && w.Codec != "pb":
-				l, err = ipfslog.NewFromEntry(ctx, w.St, n.W.ID, append([]iface.IPFSLogEntry(nil), n.Durable.heads...), w.nodeOpts(n), &entry.FetchOptions{Concurrency: conc})
+				l, err = ipfslog.NewFromEntry(ctx, w.St, n.W.ID, append([]iface.IPFSLogEntry(nil), n.Durable.heads...), w.nodeLoadOpts(n), &entry.FetchOptions{Concurrency: conc})
 			default:
-				l, err = ipfslog.NewFromMultihash(ctx, w.St, n.W.ID, n.Durable.c, w.nodeOpts(n), &ipfslog.FetchOptions{Concurrency: conc})
+				l, err = ipfslog.NewFromMultihash(ctx, w.St, n.W.ID, n.Durable.c, w.nodeLoadOpts(n), &ipfslog.FetchOptions{Concurrency: conc})
 			}
 		} else {
-			l, err = ipfslog.NewFromEntryHash(ctx, w.St, n.W.ID, n.Durable.c, w.nodeOpts(n), &ipfslog.FetchOptions{Concurrency: conc})
+			l, err = ipfslog.NewFromEntryHash(ctx, w.St, n.W.ID, n.Durable.c, w.nodeLoadOpts(n), &ipfslog.FetchOptions{Concurrency: conc})
 		}
 	})
 	if err != nil {
